@@ -52,25 +52,21 @@ impl SchemaConverter {
 
         // Emit aliases (enums)
         for (name, def_schema) in &alias_defs {
-            let prefixed = format!("{}{}", self.type_prefix, name);
+            let prefixed = self.type_name(name);
             self.emit_definition(&walker, &mut emitter, &prefixed, def_schema);
             emitter.blank_line();
         }
 
         // Emit classes from $defs
         for (name, def_schema) in &class_defs {
-            let prefixed = format!("{}{}", self.type_prefix, name);
+            let prefixed = self.type_name(name);
             self.emit_definition(&walker, &mut emitter, &prefixed, def_schema);
             emitter.blank_line();
         }
 
         // Emit the root schema under its title (or `root` when it has none),
         // so that the reported root type always exists.
-        let root_type_name = format!(
-            "{}{}",
-            self.type_prefix,
-            walker.root_title().unwrap_or("root")
-        );
+        let root_type_name = self.type_name(walker.root_title().unwrap_or("root"));
         let root = walker.root_schema();
         if root.get("properties").is_some() {
             self.emit_object_class(&walker, &mut emitter, &root_type_name, root);
@@ -92,6 +88,39 @@ impl SchemaConverter {
     }
 
     // ── Internal helpers ──────────────────────────────────────────────
+
+    /// Build the prefixed type name for a name taken from the schema (a title,
+    /// a `$defs` key or the tail of a `$ref`). Such names are free-form text;
+    /// every character that cannot be part of an EmmyLua type name is replaced
+    /// by `_`, the same way for declarations and references.
+    fn type_name(&self, raw: &str) -> String {
+        let name = raw
+            .split('.')
+            .map(|segment| {
+                if segment.is_empty() {
+                    return "_".to_string();
+                }
+                segment
+                    .chars()
+                    .map(|c| {
+                        if c.is_alphanumeric() || c == '_' {
+                            c
+                        } else {
+                            '_'
+                        }
+                    })
+                    .collect::<String>()
+            })
+            .collect::<Vec<_>>()
+            .join(".");
+
+        let starts_with_digit = name.chars().next().is_some_and(|c| c.is_numeric());
+        if self.type_prefix.is_empty() && starts_with_digit {
+            format!("_{}", name)
+        } else {
+            format!("{}{}", self.type_prefix, name)
+        }
+    }
 
     /// Check if a schema definition is an enum/alias (not an object class).
     fn is_enum_or_alias(&self, schema: &Value) -> bool {
@@ -320,7 +349,7 @@ impl SchemaConverter {
         // $ref → type name with prefix
         if let Some(ref_str) = schema.get("$ref").and_then(|v| v.as_str()) {
             let name = SchemaWalker::ref_type_name(ref_str).unwrap_or("any");
-            return format!("{}{}", self.type_prefix, name);
+            return self.type_name(name);
         }
 
         // anyOf → union type (excluding null)
@@ -664,6 +693,38 @@ mod tests {
             result
                 .annotation_text
                 .contains("---@alias schema.Name\n---| string")
+        );
+    }
+
+    #[test]
+    fn test_free_form_names_become_type_names() {
+        let schema = json!({
+            "title": "My Config (v2)",
+            "type": "object",
+            "properties": {
+                "item": { "$ref": "#/$defs/list item" }
+            },
+            "$defs": {
+                "list item": { "type": "object", "properties": {} }
+            }
+        });
+
+        let result = converter().convert(&schema);
+        assert_eq!(result.root_type_name, "schema.My_Config__v2_");
+        assert!(
+            result
+                .annotation_text
+                .contains("---@class schema.My_Config__v2_\n")
+        );
+        assert!(
+            result
+                .annotation_text
+                .contains("---@class schema.list_item\n")
+        );
+        assert!(
+            result
+                .annotation_text
+                .contains("---@field item schema.list_item?")
         );
     }
 
